@@ -353,6 +353,9 @@ func sacramento(rainfall, pet data.ND1Float64,
 						ratls := 1. - alzfsc/alzfsm
 						percs := math.Min(alzfsm-alzfsc,
 							percfw*(1.-hpl*(ratlp+ratlp)/(ratlp+ratls)))
+						if percs < 0. {
+							percs = 0. // the primary store takes at most all of the free-water percolation (FRACP <= 1 in the NWS code)
+						}
 						alzfsc = alzfsc + percs
 						//             Check for spill from supplemental to primary
 						if alzfsc > alzfsm {
